@@ -2,8 +2,8 @@
    Only statements, each closed by `exact`, with Print Assumptions beneath.
    Real-number laws are stated for the formulas the code computes (Search/BM25R.v, written over
    the literals and message texts regenerated from the Go source in Gen/ParamsBM25.v). *)
-From Coq Require Import ZArith QArith List String Reals.
-From Bluge Require Import Gen.ParamsBM25 Search.BM25R Search.BM25RProofs Search.BM25RWitness Search.BM25Rnd Search.BM25RndProofs Search.BM25F Search.BM25FProofs Search.Explain Search.ExplainProofs.
+From Coq Require Import ZArith QArith List String Reals Floats.
+From Bluge Require Import Gen.ParamsBM25 Search.BM25R Search.BM25RProofs Search.BM25RWitness Search.BM25Rnd Search.BM25RndProofs Search.BM25F Search.BM25FProofs Search.BM25FBridge Search.Explain Search.ExplainProofs.
 Import ListNotations.
 Open Scope R_scope.
 
@@ -71,27 +71,58 @@ Example stats_ok_example : stats_ok 1 default_k1 default_b 3 10 2 7 12.
 Proof. exact stats_ok_instance. Qed.
 Print Assumptions stats_ok_example.
 
-(* ---- float64: weak monotonicity ----
-   FULL STATEMENT (not proved): for the binary64 evaluation score_f of Search/BM25F.v over Coq's
-   primitive floats, f1 <= f2 -> score_f .. f1 .. <= score_f .. f2 .. and dl1 <= dl2 ->
-   score_f .. dl2 .. <= score_f .. dl1 .. for all finite positive statistics.
-   PROVED (partial): the same expression, operation by operation, with every operation followed by
-   Flocq's rounding to binary64 (round radix2 (FLT_exp (-1074) 53) ZnearestE; the IEEE semantics of
-   each operation in the absence of overflow) is non-decreasing in the frequency and non-increasing
-   in the field length.  Missing: the bridge from PrimFloat terms to rounded reals (Flocq's
-   PrimFloat.*_equiv and B*_correct, with the overflow side conditions).  Strictness is a fact
-   about the reals (score_mono_freq, score_anti_len): rounded values can coincide. *)
-Theorem float_weak_mono_partial : forall w k1 b f1 f2 dl1 dl2 avgdl,
+(* ---- float64: weak monotonicity of the PrimFloat score the correspondence evaluates ----
+   score_f (Search/BM25F.v) is bm25.go:99-103 over Coq's primitive binary64 floats.  Side
+   conditions, all explicit and decidable by evaluation: every intermediate value of the two
+   evaluations is finite (score_finite: no overflow, no division by zero, no NaN), the weight,
+   k1, b are >= 0, avgdl > 0, the length normalisation k1*((1-b)+b*dl/avgdl) is > 0 (no
+   underflow to zero), and freq, dl < 2^53 (their conversion to float64 is exact).  Then more
+   occurrences never score lower and a longer field never scores higher.  Proof: Flocq's
+   specification of the primitive operations (each is the real operation followed by rounding
+   to nearest even when the result is finite) turns score_f into the rounded-real evaluation
+   score_rnd rnd64, which is monotone because rounding is.  Strictness is a fact about the reals
+   (score_mono_freq, score_anti_len): rounded values can coincide. *)
+Theorem float_weak_mono : forall (w k1 b avgdl : PrimFloat.float) (freq1 freq2 dl1 dl2 : Z),
+  (0 <= freq1 <= freq2)%Z -> (freq2 < 2 ^ 53)%Z -> (0 <= dl1 <= dl2)%Z -> (dl2 < 2 ^ 53)%Z ->
+  score_finite w k1 b (f_of_int freq1) (f_of_u64 dl1) avgdl = true ->
+  score_finite w k1 b (f_of_int freq2) (f_of_u64 dl1) avgdl = true ->
+  score_finite w k1 b (f_of_int freq1) (f_of_u64 dl2) avgdl = true ->
+  PrimFloat.leb 0 w = true -> PrimFloat.leb 0 k1 = true -> PrimFloat.leb 0 b = true -> PrimFloat.ltb 0 avgdl = true ->
+  PrimFloat.ltb 0 (len_denominator_ff k1 b (f_of_u64 dl1) avgdl) = true ->
+  PrimFloat.leb (score_f w k1 b freq1 dl1 avgdl) (score_f w k1 b freq2 dl1 avgdl) = true /\
+  PrimFloat.leb (score_f w k1 b freq1 dl2 avgdl) (score_f w k1 b freq1 dl1 avgdl) = true.
+Proof. exact float_weak_mono_all_f. Qed.
+Print Assumptions float_weak_mono.
+
+(* realistic statistics meet every side condition (weight = Idf(3,10), default k1 and b,
+   avgdl = 12, frequencies 2 <= 3, field lengths 7 <= 9), and there the order is even strict *)
+Example float_weak_mono_hypotheses :
+  score_finite ex_w default_k1_f default_b_f (f_of_int 2) (f_of_u64 7) ex_avgdl = true /\
+  score_finite ex_w default_k1_f default_b_f (f_of_int 3) (f_of_u64 7) ex_avgdl = true /\
+  score_finite ex_w default_k1_f default_b_f (f_of_int 2) (f_of_u64 9) ex_avgdl = true /\
+  PrimFloat.leb 0 ex_w = true /\ PrimFloat.leb 0 default_k1_f = true /\ PrimFloat.leb 0 default_b_f = true /\
+  PrimFloat.ltb 0 ex_avgdl = true /\
+  PrimFloat.ltb 0 (len_denominator_ff default_k1_f default_b_f (f_of_u64 7) ex_avgdl) = true /\
+  PrimFloat.ltb (score_f ex_w default_k1_f default_b_f 2 7 ex_avgdl) (score_f ex_w default_k1_f default_b_f 3 7 ex_avgdl) = true /\
+  PrimFloat.ltb (score_f ex_w default_k1_f default_b_f 2 9 ex_avgdl) (score_f ex_w default_k1_f default_b_f 2 7 ex_avgdl) = true.
+Proof. exact float_weak_mono_instance_f. Qed.
+Print Assumptions float_weak_mono_hypotheses.
+
+(* the score as rounded real arithmetic: the value of the PrimFloat expression *)
+Theorem score_is_rounded_real : forall w k1 b f dl avgdl,
+  score_finite w k1 b f dl avgdl = true ->
+  FR (score_ff w k1 b f dl avgdl) = score_rnd rnd64 (FR w) (FR k1) (FR b) (FR f) (FR dl) (FR avgdl).
+Proof. exact score_FR. Qed.
+Print Assumptions score_is_rounded_real.
+
+(* the rounded-real evaluation itself is monotone *)
+Theorem float_weak_mono_rounded : forall w k1 b f1 f2 dl1 dl2 avgdl,
   0 <= w -> 0 <= f1 -> f1 <= f2 -> 0 <= k1 -> 0 <= b -> 0 < avgdl -> dl1 <= dl2 ->
   0 < len_denominator_rnd rnd64 k1 b dl1 avgdl ->
   score_rnd rnd64 w k1 b f1 dl1 avgdl <= score_rnd rnd64 w k1 b f2 dl1 avgdl /\
   score_rnd rnd64 w k1 b f1 dl2 avgdl <= score_rnd rnd64 w k1 b f1 dl1 avgdl.
 Proof. exact float_weak_mono_all. Qed.
-Print Assumptions float_weak_mono_partial.
-
-Example float_weak_mono_hypotheses : 0 < len_denominator_rnd rnd64 1 0 7 12.
-Proof. exact float_weak_mono_instance. Qed.
-Print Assumptions float_weak_mono_hypotheses.
+Print Assumptions float_weak_mono_rounded.
 
 (* ---- the field length carried in the norm (bm25.go:47-49, :100) ----
    ComputeNorm(n) = Float32frombits(uint32(n)); the posting returns float64(float32); Score reads
